@@ -12,6 +12,7 @@
    transaction (the service never does). *)
 From Coq Require Import List NArith Bool.
 From KV Require Import Registry RegistryProofs.
+From KV.gen Require Import TxFacts.
 Import ListNotations.
 Open Scope N_scope.
 
@@ -62,7 +63,7 @@ Theorem C17_connection_cleanup : forall cfg s r c, reachable cfg s -> In r (reg 
 Proof. exact conn_cleanup_rolls_back. Qed.
 Print Assumptions C17_connection_cleanup.
 
-Theorem C17_shutdown : forall cfg s r, reachable cfg s -> In r (reg s) -> stopped s = false ->
+Theorem C17_shutdown : forall cfg s r, reachable cfg s -> In r (reg s) -> shutdown_panics s = false ->
   let s' := fst (step cfg s EShutdown) in
   is_active (r_b r) s' = false /\ registered (r_id r) s' = false.
 Proof. exact shutdown_rolls_back. Qed.
@@ -87,3 +88,12 @@ Theorem C17_cleanup_frees : forall cfg s dt, reachable cfg s -> c_btimeout cfg <
   forall c ro d, In (OBegin c ROk) (snd (step cfg s2 (EBegin c ro d))).
 Proof. exact cleanup_frees. Qed.
 Print Assumptions C17_cleanup_frees.
+
+(* the same with the limits the binary ships with (generated from the source: gen/TxFacts.v) *)
+Theorem C17_shipped_cleanup_frees : forall svc peer s, reachable (shipped_config svc peer) s ->
+  let cfg := shipped_config svc peer in
+  let s2 := fst (run cfg s [ETick (TxFacts.registry_default_idle_ms + 1); EStale]) in
+  reg s2 = [] /\ lock_ids (lk s2) = [] /\ pends s2 = [] /\
+  forall c ro d, In (OBegin c ROk) (snd (step cfg s2 (EBegin c ro d))).
+Proof. exact shipped_cleanup_frees. Qed.
+Print Assumptions C17_shipped_cleanup_frees.
